@@ -1,6 +1,7 @@
-(** C10 — where the faithful model violates the statement: one concrete
-    witness per finding class (the same histories are replayed against the
-    implementation on every run from corpus/C10/). *)
+(** C10 — where the faithful model still violates the statement (one witness
+    per finding class), and the witnesses of the classes repaired in the fix
+    wave, which now behave as the statement demands (the same histories are
+    replayed against the implementation on every run from corpus/C10/). *)
 From Coq Require Import String Ascii List Bool Arith ZArith.
 From Raven Require Import Base.GoStr Model.Flags Model.FlagStore Spec.FlagHistory Spec.FlagOracle.
 Import ListNotations.
@@ -16,25 +17,6 @@ Definition refutes (c : cls) (pre : list op) (o : op) (mb : Z) : Prop :=
   uniq_keys_b (links s) = true /\ classify env0 s o = Some c /\
   view_eqb (view (links (step env0 s o)) mb) (view (links (spec_step env0 s o)) mb) = false.
 
-(** EXAMINE INBOX; STORE 1 +FLAGS (\Deleted) *)
-Lemma refuted_examine_writes :
-  refutes ExamineWrites [OAppend 1 [SEEN]] (OStore true false 1 (one 1) IT_ADD [DELETED]) 1.
-Proof. vm_compute. repeat split. Qed.
-
-(** ... and CLOSE then removes the message *)
-Lemma refuted_examine_close :
-  view (links (run env0 st0 [OAppend 1 [SEEN]; OStore true false 1 (one 1) IT_ADD [DELETED]; OExpunge true 1])) 1 = []
-  /\ view (links (spec_run env0 st0 [OAppend 1 [SEEN]; OStore true false 1 (one 1) IT_ADD [DELETED]; OExpunge true 1])) 1 = [(1, [SEEN])].
-Proof. vm_compute. split; reflexivity. Qed.
-
-(** 3 messages; STORE 1:2 +FLAGS (Junk): messages 1 and 3 leave, 2 is untouched *)
-Lemma refuted_junk_shift :
-  refutes JunkShift [OAppend 1 [S_ "a1"]; OAppend 1 [S_ "a2"]; OAppend 1 [S_ "a3"]]
-          (OStore false false 1 [(Some 1, Some 2)] IT_ADD [JUNK]) 1
-  /\ view (links (run env0 st0 [OAppend 1 [S_ "a1"]; OAppend 1 [S_ "a2"]; OAppend 1 [S_ "a3"];
-                                 OStore false false 1 [(Some 1, Some 2)] IT_ADD [JUNK]])) 1 = [(2, [S_ "a2"])].
-Proof. vm_compute. repeat split. Qed.
-
 (** UID STORE 1 +FLAGS (Junk \Seen) in INBOX: re-filed in Spam without NonJunk *)
 Lemma refuted_junk_move :
   refutes JunkMove [OAppend 1 [NONJUNK]] (OUidStore false false 1 (one 1) IT_ADD [JUNK; SEEN]) 1
@@ -42,29 +24,40 @@ Lemma refuted_junk_move :
      = [(1, [JUNK; SEEN])].
 Proof. vm_compute. repeat split. Qed.
 
-(** STORE 1 +FLAGS (NonJunk \Seen) in INBOX: nothing is stored *)
-Lemma refuted_junk_noop :
-  refutes JunkNoop [OAppend 1 [S_ "kw"]] (OStore false false 1 (one 1) IT_ADD [NONJUNK; SEEN]) 1
-  /\ view (links (run env0 st0 [OAppend 1 [S_ "kw"]; OStore false false 1 (one 1) IT_ADD [NONJUNK; SEEN]])) 1
-     = [(1, [S_ "kw"])].
-Proof. vm_compute. repeat split. Qed.
+(** ---- repaired classes: the old witnesses, now without any class and with
+    the outcome the statement demands ---- *)
 
-(** UID COPY 1 INBOX; STORE 1 +FLAGS (\Flagged): the copy (uid 2) is flagged too *)
-Lemma refuted_same_mailbox_copy :
-  refutes SameMailboxCopy [OAppend 1 [S_ "kw"]; OUidCopy 1 (one 1) 1]
-          (OStore false false 1 (one 1) IT_ADD [S_ "\Flagged"]) 1.
-Proof. vm_compute. repeat split. Qed.
+(** EXAMINE INBOX; STORE 1 +FLAGS (\Deleted); CLOSE: nothing happens *)
+Lemma fixed_examine_writes :
+  let h := [OAppend 1 [SEEN]; OStore true false 1 (one 1) IT_ADD [DELETED]; OExpunge true 1] in
+  hist_class env0 st0 h = None /\ view (links (run env0 st0 h)) 1 = [(1, [SEEN])].
+Proof. vm_compute. split; reflexivity. Qed.
 
-(** the auto-move of such a message deletes both rows *)
-Lemma refuted_same_mailbox_copy_junk :
-  view (links (run env0 st0 [OAppend 1 [S_ "kw"]; OUidCopy 1 (one 1) 1; OStore false false 1 (one 1) IT_ADD [JUNK]])) 1 = [].
-Proof. vm_compute. reflexivity. Qed.
+(** STORE 1 +FLAGS (NonJunk \Seen) in INBOX: both flags are stored in place *)
+Lemma fixed_junk_same_mailbox :
+  let h := [OAppend 1 [S_ "kw"]; OStore false false 1 (one 1) IT_ADD [NONJUNK; SEEN]] in
+  hist_class env0 st0 h = None /\ view (links (run env0 st0 h)) 1 = [(1, [S_ "kw"; NONJUNK; SEEN])].
+Proof. vm_compute. split; reflexivity. Qed.
 
-(** substring tests: KEYWORD Junk finds NonJunk; \Seenish makes a message seen *)
-Lemma refuted_substring :
+(** UID COPY 1 INBOX; STORE 1 +FLAGS (\Flagged): the copy (uid 2) keeps its flags *)
+Lemma fixed_same_mailbox_copy :
+  let h := [OAppend 1 [S_ "kw"]; OUidCopy 1 (one 1) 1; OStore false false 1 (one 1) IT_ADD [S_ "\Flagged"]] in
+  hist_class env0 st0 h = None
+  /\ view (links (run env0 st0 h)) 1 = [(1, [S_ "kw"; S_ "\Flagged"]); (2, [S_ "kw"; RECENT])].
+Proof. vm_compute. split; reflexivity. Qed.
+
+(** 3 messages; STORE 1:2 +FLAGS (Junk): exactly messages 1 and 2 are re-filed
+    (still class junk_move), message 3 stays *)
+Lemma fixed_junk_shift :
+  let h := [OAppend 1 [S_ "a1"]; OAppend 1 [S_ "a2"]; OAppend 1 [S_ "a3"];
+            OStore false false 1 [(Some 1, Some 2)] IT_ADD [JUNK]] in
+  view (links (run env0 st0 h)) 1 = [(3, [S_ "a3"])]
+  /\ view (links (run env0 st0 h)) 5 = [(1, [S_ "a1"; JUNK]); (2, [S_ "a2"; JUNK])].
+Proof. vm_compute. split; reflexivity. Qed.
+
+(** KEYWORD Junk does not find NonJunk; \Seenish does not make a message seen *)
+Lemma fixed_substring :
   let fl := [NONJUNK; S_ "\Seenish"] in
-  no_proper_super fl JUNK = false /\ no_proper_super_ci fl SEEN = false
-  /\ key_holds (KHas JUNK) fl = true /\ spec_key_holds (KHas JUNK) fl = false
-  /\ key_holds (KHas SEEN) fl = true /\ spec_key_holds (KHas SEEN) fl = false
-  /\ unseen_count [mkLink 1 1 1 fl] 1 = 0 /\ spec_unseen_count [mkLink 1 1 1 fl] 1 = 1.
+  key_holds (KHas JUNK) fl = false /\ key_holds (KHas SEEN) fl = false
+  /\ unseen_count [mkLink 1 1 1 fl] 1 = 1 /\ first_unseen [mkLink 1 1 1 fl] 1 = Some 1.
 Proof. vm_compute. repeat split. Qed.
